@@ -272,6 +272,20 @@ func historyNoEnv(ops []any) any {
 			} else {
 				outs = append(outs, []any{"merge", ok(nil)})
 			}
+		case "mergefile", "mergefileonly":
+			// MergeFileLayers (the file and everything it inherits from) / MergeFile (the one file)
+			var err error
+			if op[0].(string) == "mergefile" {
+				err = p.MergeFileLayers(op[1].(string))
+			} else {
+				err = p.MergeFile(op[1].(string))
+			}
+			if err != nil {
+				failed = true
+				outs = append(outs, []any{"merge", errv(err)})
+			} else {
+				outs = append(outs, []any{"merge", ok(nil)})
+			}
 		case "docs":
 			l := []any{}
 			for _, d := range p.Documents() {
